@@ -2,7 +2,7 @@
 import absint
 import q
 from callgraph import CallGraph
-from mir import Agg, Bin, Call, Const, Named, Var
+from mir import Agg, Bin, Call, Const, Named, Ref, Var
 from rules.common import RFC4648, expect_defs, has_fact
 
 SM = "encoder::serialize_mappings"
@@ -305,6 +305,75 @@ def optional_keys(ctx, rule):
                     ("mappings", "Option::Some{0:encoder::serialize_mappings(arg1)}"), ("range_mappings", "encoder::serialize_range_mappings(arg1)")):
         sh = q.shape(a.field(f))
         ctx.check(q.wild(want, sh), rule, body.path, "field:%s" % f, "RawSourceMap.%s is filled from %s" % (f, want), detail=sh)
+    _element_closures(ctx, rule, body, a)
+
+
+STRING_COPY = ("ToString::to_string(%s)", "ToOwned::to_owned(%s)", "str::to_owned(%s)", "str::to_string(%s)", "from<String>(%s)", "String::from(%s)")
+
+
+def _closure_in(e):
+    for x in e.walk():
+        if isinstance(x, Agg) and x.ak == "closure":
+            return x
+    return None
+
+
+def _element_closures(ctx, rule, body, a):
+    """The closures the regular writer maps over file / sourceRoot / sources / names / contents copy
+    each element unchanged, and the `have contents` flag is a monotone latch that is set for
+    every source that has contents."""
+    wrap = {"file": "Value::String{0:%s}", "source_root": "%s", "sources": "Option::Some{0:%s}", "names": "Value::String{0:%s}"}
+    for f, w in wrap.items():
+        cl = _closure_in(a.field(f))
+        cb = ctx.facts.body(cl.closure, required=False) if cl is not None else None
+        if not ctx.check(cb is not None, rule, body.path, "closure:%s" % f, "the %s values go through a closure of the writer" % f):
+            continue
+        shapes = [sh for sh, site, _ in q.def_shapes(cb, 0, {})]
+        acc = [w % (c % "arg2") for c in STRING_COPY]
+        ctx.check(len(shapes) == 1 and shapes[0] in acc and not any(cb.blocks[b]["term"]["k"] == "switch" for b in cb.reachable_blocks()), rule, cb.path, "copy:%s" % f,
+                  "every %s element is copied unchanged (%s)" % (f, w % "copy(x)"), detail=str(shapes))
+    # contents
+    sc = q.root_local(a.field("sources_content"))
+    cl = None
+    for sh, site, e in (q.def_shapes(body, sc, {}) if sc is not None else []):
+        cl = cl or _closure_in(e)
+    cb = ctx.facts.body(cl.closure, required=False) if cl is not None else None
+    if not ctx.check(cb is not None and len(cl.ops) == 1, rule, body.path, "closure:contents", "the contents go through a closure capturing exactly the `have contents` flag"):
+        return
+    cap = cl.ops[0]
+    flag = q.root_local(cap)
+    ok = isinstance(cap, Ref) and cap.mut and flag is not None and body.local_ty(flag) == "bool"
+    if not ctx.check(ok, rule, body.path, "latch:capture", "the closure captures a `&mut bool`", detail=str(cap)):
+        return
+    inits = [sh for sh, site, _ in q.def_shapes(body, flag, {})]
+    borrows = [1 for bi, si, s, it in body.locations() if not it and s["k"] == "assign" and s["rv"]["k"] == "ref" and s["rv"]["place"]["l"] == flag]
+    ctx.check(inits == ["0"] and len(borrows) == 1, rule, body.path, "latch:init", "the flag starts false and only the contents closure can write it", detail="%s borrows=%d" % (inits, len(borrows)))
+    sc = q.root_local(a.field("sources_content"))
+    for sh, site, _ in (q.def_shapes(body, sc, {}) if sc is not None else []):
+        if sh == "Option::None{}":
+            ctx.check(has_fact(body, site[0], {flag: "FLAG"}, ("false", "FLAG", None)), rule, body.path, "latch:none", "sourcesContent is None only when the flag is still false", ctx.site(body, *site))
+        else:
+            ctx.check(has_fact(body, site[0], {flag: "FLAG"}, ("true", "FLAG", None)), rule, body.path, "latch:some", "sourcesContent is written when the flag is set", ctx.site(body, *site))
+    # inside the closure: stores through the captured reference
+    stores = []
+    for bi, si, s, it in cb.locations():
+        if it or s["k"] != "assign":
+            continue
+        pl = s["place"]
+        if pl["p"] and pl["p"][0]["k"] == "deref" and pl.get("ty") == "bool":
+            stores.append((bi, q.shape(cb.expr_of_rvalue(s["rv"]))))
+    ctx.check(bool(stores) and all(v == "1" for _, v in stores), rule, cb.path, "latch:monotone", "the closure only ever sets the flag to true (one source with contents is enough)", detail=str(stores))
+    defs = q.def_shapes(cb, 0, {})
+    somes = [(sh, site) for sh, site, _ in defs if sh != "Option::None{}"]
+    nones = [(sh, site) for sh, site, _ in defs if sh == "Option::None{}"]
+    acc = ["Option::Some{0:%s}" % (c % "some(arg2)") for c in STRING_COPY]
+    ok = len(somes) == 1 and somes[0][0] in acc and len(nones) == 1
+    ctx.check(ok, rule, cb.path, "contents:copy", "present contents are copied unchanged, absent contents stay None", detail=str([d[0] for d in defs]))
+    if ok:
+        sb = somes[0][1][0]
+        ctx.check(any(cb.dominates(b, sb) for b, _ in stores), rule, cb.path, "latch:set-on-some", "the flag is set whenever a source has contents", ctx.site(cb, sb))
+        ctx.check(has_fact(cb, nones[0][1][0], {}, ("variant_not_in", "arg2", "(1,)")), rule, cb.path, "contents:none-only-absent", "None is produced only for a source without contents",
+                  ctx.site(cb, nones[0][1][0]))
 
 
 def _serialize_body(facts, adt):
